@@ -1278,6 +1278,13 @@ class Interp:
             return c.length, c.fn
         if isinstance(v, A.Arr) and v.shape and not A.dim_conc(v.shape[0]):
             return v.shape[0], (lambda i: A.getitem(v, i))
+        from .lib import _Enumerate
+        if isinstance(v, _Enumerate):
+            inner = self.symbolic_iter(v.it)
+            if inner is not None:
+                n, item = inner
+                start = v.start
+                return n, (lambda i: (A.simp(sv.add(start, i)), item(i)))
         return None
 
     def ev_Call(self, node, frame):
